@@ -141,6 +141,24 @@ MUTANTS = [
     ("node-slots-permuted", {"C03": "A2.slot", "C17": "A2.slot"}, [(CO, "        self.vjp = vjpmaker(parent_argnums, value, args, kwargs)", "        self.vjp = vjpmaker(parent_argnums, args, value, kwargs)")]),
     ("untake-pairing-drops-index", {"C11": "A2.repo"}, [(NV, "defvjp(func(ArrayBox.__getitem__), lambda ans, A, idx: lambda g: untake(g, idx, vspace(A)))", "defvjp(func(ArrayBox.__getitem__), lambda ans, A, idx: lambda g: untake(g, idx, vspace(g)))")]),
     ("flatten-unsorted-keys", {"C12": "A2.flatten"}, [("autograd/misc/flatten.py", "        return _concatenate(_flatten(value[k]) for k in sorted(value))", "        return _concatenate(_flatten(value[k]) for k in value.keys())")]),
+    ("toposort-push-every-visit", {"C03": "A13.topo"}, [("autograd/util.py", "            child_counts[node] = 1\n            stack.extend(parents(node))", "            child_counts[node] = 1\n        stack.extend(parents(node))")]),
+    ("toposort-release-too-early", {"C03": "A13.topo"}, [("autograd/util.py", "            if child_counts[parent] == 1:", "            if child_counts[parent] >= 1:")]),
+    ("toposort-no-decrement", {"C03": "A13.topo"}, [("autograd/util.py", "            else:\n                child_counts[parent] -= 1", "            else:\n                child_counts[parent] -= 2")]),
+    ("container-add-delegates-to-mut-add", {"C12": "A14.vspace", "C13": "A14.vspace"}, [(BU, "return self._map(lambda vs, x, y: vs._add(x, y), xs, ys)", "return self._map(lambda vs, x, y: vs._mut_add(x, y), xs, ys)")]),
+    ("container-inner-prod-operands", {"C13": "A14.vspace"}, [(BU, "self._map(lambda vs, x, y: vs._inner_prod(x, y), xs, ys)", "self._map(lambda vs, x, y: vs._inner_prod(x, x), xs, ys)")]),
+    ("dict-map-by-position", {"C12": "A14.vspace", "C13": "A14.vspace"}, [(BU, "return {k: f(vs, *[x[k] for x in args]) for k, vs in self.shape.items()}", "return {k: f(vs, *[list(x.values())[i] for x in args]) for i, (k, vs) in enumerate(self.shape.items())}")]),
+    ("untake-slice-zip-order", {"C12": "A14.vspace"}, [(BU, "for elt_vs, a, b in zip(vs.shape[idx], result, x)]", "for elt_vs, b, a in zip(vs.shape[idx], result, x)]")]),
+    ("dict-ctor-values-sorted", {"C12": "A14.vspace"}, [(BU, "return _make_dict(result.keys(), list(result.values()))", "return _make_dict(sorted(result.keys()), list(result.values()))")]),
+    ("wrap-namespace-priority", {"C06": "A13.wrapns", "C15": "A13.wrapns"}, [(NW, "        if obj in notrace_functions:\n            new[name] = notrace_primitive(obj)\n        elif callable(obj) and type(obj) is not type:\n            new[name] = primitive(obj)", "        if callable(obj) and type(obj) is not type:\n            new[name] = primitive(obj)\n        elif obj in notrace_functions:\n            new[name] = notrace_primitive(obj)")]),
+    ("htp-contracts-fewer-axes", {"C16": "A15.products"}, [(DO, "return np.tensordot(fun_grad(*args, **kwargs), vector, np.ndim(vector))", "return np.tensordot(fun_grad(*args, **kwargs), vector, 1)")]),
+    ("tjp-operands-swapped", {"C16": "A15.products"}, [(DO, "return np.tensordot(vector, fun(*args, **kwargs), axes=np.ndim(vector))", "return np.tensordot(fun(*args, **kwargs), vector, axes=np.ndim(vector))")]),
+    ("jvp-reversemode-zeros-of-input", {"C16": "A15.products"}, [(DO, "    vjp_vjp, _ = _make_vjp(vjp, vspace(y).zeros())", "    vjp_vjp, _ = _make_vjp(vjp, vspace(x).zeros())")]),
+    ("unbroadcast-reads-own-shape", {"C01": "A3.helper", "C05": "A3.helper"}, [(NV, "        if size == 1:\n            x = anp.sum(x, axis=axis, keepdims=True)", "        if size == 1 and anp.shape(x)[axis] > 1:\n            x = anp.sum(x, axis=axis, keepdims=True)")]),
+    ("unbroadcast-keepdims-dropped", {"C05": "A3.helper"}, [(NV, "            x = anp.sum(x, axis=axis, keepdims=True)\n    if anp.iscomplexobj(x)", "            x = anp.sum(x, axis=axis)\n    if anp.iscomplexobj(x)")]),
+    ("norm-pnorm-ans-unexpanded", {"C01": "A3.reduce", "C05": "A3.reduce"}, [(LA, "return expand(g / ans ** (ord - 1)) * anp.conj(x) * anp.abs(x) ** (ord - 2)", "return expand(g) * anp.conj(x) * (anp.abs(x) / ans) ** (ord - 2) / ans")]),
+    ("prod-vjp-ans-unexpanded", {"C01": "A3.reduce"}, [(NV, "        g_repeated, _ = repeat_to_match_shape(g * ans, shape, dtype, axis, keepdims)\n        return g_repeated / x", "        g_repeated, _ = repeat_to_match_shape(g, shape, dtype, axis, keepdims)\n        return g_repeated * ans / x")]),
+    ("make-dict-vjp-by-position", {"C12": "A2.dictkeys"}, [(BU, "lambda ans, keys, vals: lambda g: list(g[key] for key in keys)", "lambda ans, keys, vals: lambda g: list(g.values())")]),
+    ("thread-local-with-slots", {"C20": "A11.thread"}, [(TR, "class TraceStack(threading.local):\n", "class TraceStack(threading.local):\n    __slots__ = [\"top\"]\n\n")]),
     ("container-space-loses-subval", {"C12": "A1.spaces"}, [(BU, "    def _subval(self, xs, idx, x):\n        d = dict(xs.items())\n        d[idx] = x\n        return d\n", "")]),
 ]
 
@@ -172,6 +190,9 @@ BENIGN = [
     ("extra-guard-in-jvp", [(NJ, "def fwd_grad_sort(g, ans, x, axis=-1, kind=\"quicksort\", order=None):\n", "def fwd_grad_sort(g, ans, x, axis=-1, kind=\"quicksort\", order=None):\n    if order is not None:\n        raise NotImplementedError(\"structured sort order\")\n")]),
     ("add-outgrads-sparse-first", [(CO, "    else:\n        if sparse:\n            return sparse_add(vspace(g), None, g), True\n        else:\n            return g, False", "    else:\n        if not sparse:\n            return g, False\n        return sparse_add(vspace(g), None, g), True")]),
     ("new-trace-local-copy", [(TR, "        self.top += 1\n        yield self.top\n        self.top -= 1", "        self.top += 1\n        yield self.top\n        self.top -= 1\n        # balanced")]),
+    ("toposort-decrement-then-test", [("autograd/util.py", "            if child_counts[parent] == 1:\n                childless_nodes.append(parent)\n            else:\n                child_counts[parent] -= 1", "            child_counts[parent] -= 1\n            if child_counts[parent] == 0:\n                childless_nodes.append(parent)")]),
+    ("toposort-not-in-first", [("autograd/util.py", "        if node in child_counts:\n            child_counts[node] += 1\n        else:\n            child_counts[node] = 1\n            stack.extend(parents(node))", "        if node not in child_counts:\n            child_counts[node] = 1\n            stack.extend(parents(node))\n        else:\n            child_counts[node] += 1")]),
+    ("container-lambda-renamed", [(BU, "return self._map(lambda vs, x, y: vs._add(x, y), xs, ys)", "return self._map(lambda space, a, b: space._add(a, b), xs, ys)")]),
     ("where-with-zeros-like", [(NV, "    lambda ans, c, x=None, y=None: unbroadcast_f(x, lambda g: anp.where(c, g, anp.zeros(g.shape))),", "    lambda ans, c, x=None, y=None: unbroadcast_f(x, lambda g: anp.where(c, g, anp.zeros_like(g))),")]),
 ]
 
